@@ -74,9 +74,13 @@ def gen_cases(tier, seed):
     extra = []
     # slow shapes, sampled: async-func parmap in a sync stream (its helper thread polls once a second), process pool, IterableQueue source
     slow = []
+    must = []
     for size in (1, 2):
         for stop in [('exhaust', None), ('break', 1), ('close', 3)]:
-            for fail in [('none', None, None), ('source', 2, 'Boom'), ('source', 4, 'StopRequested'), ('func', 2, 'Boom')]:
+            for fail in [('none', None, None), ('source', 2, 'Boom'), ('source', 4, 'StopRequested'), ('func', 2, 'Boom'), ('actx', 0, 'Boom')]:
+                if fail[0] == 'actx':
+                    must.append({'shape': 'parmap-asyncfunc', 'size': size, 'stop': stop, 'fail': fail, 'n': L, 'fuzz_seed': rng.randrange(1 << 30)})
+                    continue
                 slow.append({'shape': 'parmap-asyncfunc', 'size': size, 'stop': stop, 'fail': fail, 'n': L, 'fuzz_seed': rng.randrange(1 << 30)})
                 slow.append({'shape': 'parmap-process', 'size': size, 'stop': stop, 'fail': fail, 'n': L, 'fuzz_seed': rng.randrange(1 << 30)})
     for size in (1, 2, 3):
@@ -86,7 +90,7 @@ def gen_cases(tier, seed):
                              'fuzz_seed': rng.randrange(1 << 30)})
     if tier == 'quick':
         rng.shuffle(slow)
-        slow = slow[:30]
+        slow = slow[:30] + must[:3]
         # the quick tier runs every enumerated case once; half of them under the fuzzer
         for c in cases:
             c['fuzz'] = rng.random() < 0.5
@@ -97,6 +101,7 @@ def gen_cases(tier, seed):
             for c in base:
                 c2 = dict(c, fuzz=rep > 0, fuzz_seed=rng.randrange(1 << 30))
                 cases.append(c2)
+        slow = slow + must
         for c in slow:
             c['fuzz'] = False
     for c in slow:
@@ -178,7 +183,7 @@ def func_for(case):
 def afunc_for(case):
     site, p, kind = case['fail']
 
-    async def awork(x):
+    async def awork(x, **ctx):
         if site == 'func' and x == p:
             raise Boom('func', x)
         if site == 'func2' and x in (1, 4):
@@ -189,6 +194,24 @@ def afunc_for(case):
         return ('w', x)
 
     return awork
+
+
+class Ctx:
+    """An async context manager handed to parmap(async_context=...); may fail to enter."""
+
+    def __init__(self, fail):
+        self.fail = fail
+        self.entered = self.exited = 0
+
+    async def __aenter__(self):
+        if self.fail:
+            raise Boom('actx', 0)
+        self.entered += 1
+        return self
+
+    async def __aexit__(self, *a):
+        self.exited += 1
+        return False
 
 
 def proc_func(x, *, site, p):
@@ -218,6 +241,8 @@ def expected(case, items):
     wrap = (lambda x: ('w', x)) if shape not in ('buffer', 'abuffer', 'synciter', 'asynciter', 'synciter(abuffer)', 'asynciter(buffer)') else (lambda x: x)
     if shape == 'fifo-pre':
         wrap = lambda x: ('w', ('p', x))  # noqa: E731
+    if site == 'actx':
+        return out, ('RAISED', norm_exc(Boom('actx', 0)))
     for i, x in enumerate(items):
         if site in ('source', 'iterq-stop') and i == p:
             return out, ('RAISED', 'StopRequested' if kind == 'StopRequested' else norm_exc(Boom('src', p)))
@@ -354,6 +379,11 @@ def run_case(case):
         if shape == 'parmap-process':
             return iter(st.parmap(proc_func, executor='process', concurrency=size, site=site, p=p))
         if shape == 'parmap-asyncfunc':
+            if site == 'actx' or case.get('fuzz_seed', 0) % 2:
+                # with async context managers (entered in the helper thread's loop); one of them may fail to enter
+                ctxs = {'c1': Ctx(False), 'c2': Ctx(site == 'actx')}
+                stats['ctxs'] = ctxs
+                return iter(st.parmap(afunc_for(case), concurrency=size, async_context=ctxs))
             return iter(st.parmap(afunc_for(case), concurrency=size))
         if shape == 'buffer>parmap':
             return iter(st.buffer(size).parmap(func_for(case), executor='thread', concurrency=size))
